@@ -21,6 +21,7 @@ import modgen, widegen
 import c10_regions
 import c10_refs
 import c10_partial, c10_strlit
+import c10_derived
 
 STRICT = "-std=c99 -Wall -Werror=implicit-function-declaration -Werror=incompatible-pointer-types"
 ALL_OPTS = ["-fcompound-names", "-fwide-types", "-findirect-choice", "-fno-constraints", "-no-gen-PER", "-no-gen-OER", "-fincludes-quoted"]
@@ -242,6 +243,7 @@ def corpus(rng, tier):
     mods += c10_refs.ref_modules(rng, tier)      # round 3: type references as a swept dimension
     mods += c10_partial.partial_modules(rng, tier)    # round 4: exactly one emission unit fails in the emitter
     mods += c10_strlit.strlit_modules(rng, tier)      # round 4: octet content of string literals
+    mods += c10_derived.derived_modules(rng, tier)    # round 5: a type NAME that maps onto a derived C name of another type
     mods += invalid_modules()
     k = 0
     for i in range(ninj * 3):
@@ -582,6 +584,8 @@ def build_job1(job):
         job["stems"], job["fileset"] = fileset_oracle(d, err, job["skel"])
         if mod.get("sites"):
             job["site_types"] = site_types(d, mod)
+        if mod.get("derived"):          # round 5 (n): no global C identifier is defined by the headers of two types
+            job["dup_names"] = c10_derived.names_oracle(d, job["skel"])
     if rc != 0 or job.get("only_asn1c"):
         return job
     if not os.path.exists(os.path.join(d, "converter-example.mk")):
@@ -612,6 +616,8 @@ def build_job1(job):
     crc, cout, cerr = run(["g++", "-fsyntax-only", "-x", "c++", "-I."] + job["mod_cflags"] + ["cxx_all.cpp"], d, timeout=300)
     job["t_cxx"] = time.time() - t0
     job["cxx_rc"], job["cxx_log"] = crc, "\n".join([l for l in cerr.split("\n") if "error" in l][:8]) or cerr[-800:]
+    if mod.get("derived"):              # round 5 (m): one C translation unit including every emitted header
+        job["call_rc"], job["call_log"] = c10_derived.c_all_headers(d, job["skel"], job["mod_cflags"], run)
     if brc != 0:
         return job
     # translator
